@@ -456,6 +456,10 @@ def run(ctx, rep):
             c11.check_handlers(ctx, RuleProxy(rep, 'C01.H', 'handlers::'), kinds, cls)
     if nh < 15:
         rep.incomplete('C01.H', '*', '', f"only {nh} model classes found")
+    # … and none of them keeps, from its constructor, a value (or a view) taken from a parameter's tensor and serves it later: a re-assigned parameter has a NEW tensor, the
+    # view still shows the old one (C09.P snapshot rule on the models the likelihood reads)
+    from props import c09
+    c09.check_snapshots(ctx, rep, rule='C01.H', modules=['torchtree.evolution.branch_model', 'torchtree.evolution.site_model', 'torchtree.evolution.tree_likelihood'], floor=6)
     # C01.T (ambiguities off) — the default of TreeLikelihoodModel is use_ambiguities=False: the tip vector of every symbol that stands for ONE state must still be that
     # state's indicator (C02.M rules: partial() with the flag off against the encoding tables, all 128 code points, and the lookup data types)
     try:
